@@ -168,10 +168,36 @@ let validate (c : case) : string =
           bad "work piece %d: observed segments [%s] hash %s, the model has [%s] hash %s" i
             (String.concat "," (List.map (fun (a, b, c) -> Printf.sprintf "%d:%s:%s" a b c) segs)) h
             (String.concat "," (List.map (fun (a, b, c) -> Printf.sprintf "%d:%s:%s" a b c) msegs)) (hex_of_bytes w.w_hash)) obs_work work;
+    let crashed = c.result = "crash" in
+    (* 5a. the scanning phase as ONE path of the transition system of SystemModel.v: the pool holds
+       the programs of all pieces; the events of all pieces, in global log order, are replayed with
+       the extracted [sys_event] (every accepted event is an [sstep], SystemProofs.sys_event_sound) *)
+    let key_of (w : wpiece) = match w.w_segs with s :: _ -> Printf.sprintf "%d:%s" (int_of_nat s.ps_entry.e_id) (string_of_n s.ps_off) | [] -> "?" in
+    let wkeys = List.map key_of work in
+    let index_of k = let rec go i = function [] -> -1 | x :: r -> if x = k then i else go (i + 1) r in go 0 wkeys in
+    let sysr = ref { s_fs = !fs; s_pool = List.map (solve_prog sha1) work } in
+    let all_ev = List.sort compare (List.map (fun (k, (seq, e)) -> (seq, k, e)) c.pev) in
+    let nev = List.length all_ev in
+    let fuel = nat_of_int 8 in
+    List.iteri (fun j (seq, k, e) ->
+        let i = index_of k in
+        if i >= 0 then begin
+          let s1 = sys_skip fuel !sysr (nat_of_int i) in
+          match sys_event s1 (nat_of_int i) e (crashed && j = nev - 1) with
+          | Some s2 -> sysr := s2
+          | None -> bad "system replay: event #%d (%s) of piece %s is not a step of the transition system from the state reached (program/event mismatch, operation refused by the model file system, or a read that differs from the shared file system)" seq (show_event e) k
+        end) all_ev;
+    if not crashed then
+      List.iteri (fun i (w : wpiece) ->
+          sysr := sys_skip fuel !sysr (nat_of_int i);
+          match List.nth (!sysr).s_pool i, List.filter_map (fun (k, o) -> if k = key_of w then Some o else None) c.pend with
+          | Ret o, [obs] -> if outcome_string o <> obs then bad "system replay: piece %s ends with %s, observed %s" (key_of w) (outcome_string o) obs
+          | Ret _, _ -> ()
+          | _, _ -> bad "system replay: the program of piece %s has not returned when the events end" (key_of w)) work;
     (* 5. file-system effects in global order, read consistency *)
     apply_events (List.sort compare (List.map snd c.pev));
+    if not crashed && (!sysr).s_fs <> !fs then bad "system replay: final file system differs from the sequential application of the logged operations";
     (* 6. per piece: the observed events are a path of the piece's program *)
-    let crashed = c.result = "crash" in
     let summary = ref [] in
     List.iter (fun (w : wpiece) ->
         let key = match w.w_segs with s :: _ -> Printf.sprintf "%d:%s" (int_of_nat s.ps_entry.e_id) (string_of_n s.ps_off) | [] -> "?" in
